@@ -1621,6 +1621,20 @@ def s_r6h_at_least_one_tables(schema: Schema, rep: Report):
                 if names is not None and any(nm_ in members.values() for nm_ in names):
                     admitted = (admitted or set()) | {nm_ for nm_ in names if nm_ in members.values()}
         if admitted is None:
+            # no per-member test at all, only a count of the positional members: then EVERY member counts - the excluded ones too
+            try:
+                from .flat import flat as _flat6h
+
+                ffn = _flat6h(p, ci.module, fn, ci)
+            except Exception:
+                ffn = fn
+            va_ = fn.args.vararg.arg if fn.args.vararg else None
+            counts = [x for x in ast.walk(ffn) if va_ and ((isinstance(x, ast.Call) and text(x.func) == "len" and x.args and text(x.args[0]) == va_) or (isinstance(x, ast.UnaryOp) and isinstance(x.op, ast.Not) and text(x.operand) == va_))]
+            member_tests = [x for x in ast.walk(ffn) if isinstance(x, (ast.comprehension, ast.For)) and va_ and text(x.iter) == va_]
+            if counts and not member_tests and excluded:
+                n += 1
+                rep.check("S-R6h", f"{cname}.validate_args:every-form-counts", False, f"{cname}.validate_args only counts its positional members (`{text(counts[0])[:30]}`): {sorted(excluded)} satisfy `at least one` too, so an instance holding nothing but such members ({src}) is built and read back although it carries no form", loc(ci, fn))
+                continue
             rep.note(f"S-R6h undecided: how {cname}.validate_args tells the forms from the other members was not recognised")
             continue
         n += 1
